@@ -18,7 +18,8 @@
 //	             l<i>              store:<Si>#system@system:fga                (stored link)
 //	    wspec  : Write only — sequence of tuple kinds (a e b c p x r, prefix d = delete), "-" otherwise
 //	    extra  : ListStores only — p<pageSize>[.<nameStore>]; "-" otherwise
-//	  output : ok | forbidden | err:<code>      (ListStores: "ok <store names in response order>")
+//	  output : ok | forbidden | forbidden+mid (refused, but the model-id response header was set) | err:<code>
+//	           (ListStores: "ok <store names, canonical order>")
 //
 //	au <method> <client> <storeResult> <modules>     Authorizer.Authorize against a scripted server
 //	    client : none | empty | <id>;  storeResult: A(llowed) D(enied) E(rror);  modules: m1:A,m2:E | -
@@ -166,6 +167,7 @@ type world struct {
 	skip     context.Context
 	typeDefs []*openfgav1.TypeDefinition
 	rootDefs []*openfgav1.TypeDefinition
+	tr       *recTransport
 }
 
 var (
@@ -233,8 +235,10 @@ func getWorld() *world {
 			w.modelID[i] = m.GetAuthorizationModelId()
 		}
 		boot.Close()
+		w.tr = &recTransport{keys: map[string][]string{}}
 		w.srv = server.MustNewServerWithOpts(
 			server.WithDatastore(w.ds),
+			server.WithTransport(w.tr),
 			server.WithExperimentals("enable-access-control", "authzen"),
 			server.WithAccessControlParams(true, w.rootID, w.rootMID, "oidc"),
 			server.WithAuthzenBaseURL("https://pdp.example"),
@@ -305,6 +309,38 @@ func classify(err error) string {
 		return "forbidden"
 	}
 	return "err:" + strconv.Itoa(int(st.Code()))
+}
+
+// recTransport records the response headers the server sets during one call
+type recTransport struct {
+	mu   sync.Mutex
+	keys map[string][]string
+}
+
+func (t *recTransport) SetHeader(_ context.Context, key, value string) {
+	t.mu.Lock()
+	defer t.mu.Unlock()
+	k := strings.ToLower(key)
+	t.keys[k] = append(t.keys[k], value)
+}
+
+func (t *recTransport) reset() {
+	t.mu.Lock()
+	defer t.mu.Unlock()
+	t.keys = map[string][]string{}
+}
+
+// has: some value set for the header equals want (the authorizer's nested Check on the access-control store sets
+// the same header with the access-control model id, so presence alone says nothing)
+func (t *recTransport) has(key, want string) bool {
+	t.mu.Lock()
+	defer t.mu.Unlock()
+	for _, v := range t.keys[strings.ToLower(key)] {
+		if v == want {
+			return true
+		}
+	}
+	return false
 }
 
 type nullStream struct {
@@ -421,6 +457,7 @@ func (w *world) api(f []string) string {
 	res := &authzenv1.Resource{Type: "ta", Id: "1"}
 	act := &authzenv1.Action{Name: "member"}
 	var err error
+	w.tr.reset()
 	switch method {
 	case "ReadAuthorizationModel":
 		_, err = s.ReadAuthorizationModel(ctx, &openfgav1.ReadAuthorizationModelRequest{StoreId: sid, Id: w.mid(store)})
@@ -455,7 +492,12 @@ func (w *world) api(f []string) string {
 			tds = []*openfgav1.TypeDefinition{{Type: "doc", Relations: map[string]*openfgav1.Userset{"r": this()},
 				Metadata: &openfgav1.Metadata{Relations: map[string]*openfgav1.RelationMetadata{"r": {DirectlyRelatedUserTypes: []*openfgav1.RelationReference{{Type: "undefined_type"}}}}}}}
 		}
-		_, err = s.WriteAuthorizationModel(ctx, &openfgav1.WriteAuthorizationModelRequest{StoreId: sid, SchemaVersion: typesystem.SchemaVersion1_1, TypeDefinitions: tds})
+		var wr *openfgav1.WriteAuthorizationModelResponse
+		wr, err = s.WriteAuthorizationModel(ctx, &openfgav1.WriteAuthorizationModelRequest{StoreId: sid, SchemaVersion: typesystem.SchemaVersion1_1, TypeDefinitions: tds})
+		if err == nil && store != "r" && store != "n" {
+			i, _ := strconv.Atoi(store)
+			w.modelID[i] = wr.GetAuthorizationModelId() // the latest model of the store
+		}
 	case "Expand":
 		_, err = s.Expand(ctx, &openfgav1.ExpandRequest{StoreId: sid, TupleKey: &openfgav1.ExpandRequestTupleKey{Object: "ta:1", Relation: "member"}})
 	case "ReadChanges":
@@ -520,7 +562,12 @@ func (w *world) api(f []string) string {
 	default:
 		return "badcase"
 	}
-	return classify(err)
+	cl := classify(err)
+	if cl == "forbidden" && store != "r" && store != "n" && store != "-" && w.tr.has(server.AuthorizationModelIDHeader, w.mid(store)) {
+		// the call was refused, yet the resolved authorization model id of the target store went out as a response header
+		return "forbidden+mid"
+	}
+	return cl
 }
 
 func (w *world) listStores(ctx context.Context, extra string) string {
